@@ -97,7 +97,6 @@ Definition enc_ok (r : list config * list string) : data :=
 Definition enc_res (r : err + (list config * list string)) : data :=
   match r with
   | inl EArgument => DList [DStr "Err"; DStr "ArgumentError"]
-  | inl ESystemExit => DList [DStr "Err"; DStr "SystemExit"]
   | inr x => enc_ok x
   end.
 Definition enc_spec (r : option (list config * list string)) : data :=
